@@ -145,7 +145,7 @@ func init() {
 			{Name: "VerifH_grpc_send", Covers: []string{"sent", "sent-above-receive-limit", "refused", "stats-outpayload", "compressed", "compressed-empty"}},
 			{Name: "VerifH_proto_wire", Covers: []string{"over-limit", "prefix>=2^63", "message"}},
 			{Name: "VerifH_http_recv_body", Covers: []string{"upload", "multi-chunk", "empty-upload"}},
-			{Name: "VerifH_http_recv_stream", Covers: []string{"clean-eof", "truncated", "empty-stream"}},
+			{Name: "VerifH_http_recv_stream", Covers: []string{"clean-eof", "truncated", "empty-stream", "over-limit-refused"}},
 		},
 		Bounds: map[string]string{
 			"quick":    "limits symbolic in 1..6; unary bodies of 0..7 bytes over every read partition; gRPC frames with a symbolic flag byte, all 2^32 length prefixes, 0..7 payload bytes present, fake decompression to 0..8 bytes; replies of 0..8 bytes with independent symbolic send and receive limits; varint prefixes over all of uint64; HttpBody uploads of every length 0..3*limit+1",
